@@ -22,6 +22,7 @@ import z3
 from . import sym
 
 ROOT = os.path.dirname(os.path.dirname(os.path.abspath(__file__)))
+OUT = os.environ.get('VERIF_OUT', ROOT)
 
 
 # ------------------------------------------------------------------------------------------------
@@ -160,7 +161,7 @@ def concretize(m):
 
 # ------------------------------------------------------------------------------------------------
 def write_replay(prop, name, records, spec):
-    d = os.path.join(ROOT, 'replays', prop)
+    d = os.path.join(OUT, 'replays', prop)
     os.makedirs(d, exist_ok=True)
     safe = re.sub(r'[^A-Za-z0-9_.#\[\]-]+', '_', name)[:150]
     path = os.path.join(d, safe + '.json')
@@ -172,7 +173,7 @@ def write_replay(prop, name, records, spec):
                     'outcome': r.get('outcome'), 'info': r.get('info'), 'cvc5': r.get('cvc5'),
                     'time_s': r.get('time_s')} for r in records[:8]],
         'inputs': None, 'replay': None,
-        'how_to_replay': f'./check {prop} --replay {os.path.relpath(path, ROOT)}',
+        'how_to_replay': f'./check {prop} --replay {os.path.relpath(path, OUT)}',
     }
     confirmed = False
     for r in records:
@@ -193,7 +194,7 @@ def write_replay(prop, name, records, spec):
         doc['model_excerpt'] = rec.get('model')
     with open(path, 'w') as f:
         json.dump(doc, f, indent=1, default=str)
-    return os.path.relpath(path, ROOT), confirmed
+    return os.path.relpath(path, OUT), confirmed
 
 
 def native_replay(fn_key, inputs, timeout=20):
